@@ -215,6 +215,12 @@ def render_type(s, t, opts):
         manual_clone = "Clone" in keep and "Copy" not in keep
         if manual_clone:
             keep.remove("Clone")
+        if "PartialEq" in keep:
+            # derived PartialEq on a fieldless enum is structural equality: tell Verus so
+            if "Eq" not in keep:
+                keep.append("Eq")
+            keep.append("Structural")
+            notes.append("derive(PartialEq) on fieldless enum %s: Verus `Structural` added (exec == is structural equality)" % name)
         if keep:
             out.append("#[derive(%s)]" % ", ".join(keep))
         out.append(body)
@@ -253,6 +259,7 @@ class Item:
         self.clauses = {"requires": [], "ensures": [], "invariant": [], "decreases": []}
         self.havoc = []
         self.scaffold = 0
+        self.carrying = []
         self.trusted = False
         self.elsewhere = False
         self.name = ident.split("::")[-1].split("/")[-1]
@@ -262,7 +269,7 @@ class Item:
         return {
             "id": self.ident, "kind": self.kind, "props": self.props, "src": self.srcfile,
             "src_lines": self.src_lines, "body_sha": self.body_sha, "gen_lines": self.gen_lines,
-            "contract_lines": self.contract_lines, "clauses": self.clauses, "havoc": self.havoc, "scaffold": self.scaffold, "name": self.name, "body_text": self.body_text,
+            "contract_lines": self.contract_lines, "clauses": self.clauses, "havoc": self.havoc, "scaffold": self.scaffold, "carrying": self.carrying, "name": self.name, "body_text": self.body_text,
             "trusted": self.trusted, "elsewhere": self.elsewhere,
         }
 
@@ -355,33 +362,76 @@ def apply_befores(body, befores, item):
     return body
 
 
-def splice_loops(s, body_open, body_close, loops_spec, item):
-    """Return the body text [body_open, body_close] with loop headers annotated."""
-    if not loops_spec:
+def tail_expr_start(s, body_open, body_close):
+    """index where the tail expression of a block starts (after the last depth-1 `;` or `}`), or body_close"""
+    k = body_open + 1
+    last = body_open + 1
+    while k < body_close:
+        ch = s.m[k]
+        if ch in "([{":
+            c = s.match_close(k)
+            k = c + 1
+            if ch == "{":
+                last = k
+            continue
+        if ch == ";":
+            last = k + 1
+        k += 1
+    if s.m[last:body_close].strip() == "":
+        return body_close
+    # skip leading whitespace/newline
+    while last < body_close and s.m[last] in " \t\n":
+        last += 1
+    return last
+
+
+def splice_loops(s, body_open, body_close, loops_spec, item, places=None):
+    """Return the body text [body_open, body_close] with loop headers annotated and
+    proof scaffolding placed at function start/end and loop body start/end."""
+    places = places or {}
+    if not loops_spec and not places:
         return s.text[body_open:body_close + 1]
     loops = s.loops(body_open, body_close)
-    edits = []  # (index, text to insert, replace_len)
-    for n, spec in loops_spec.items():
+    edits = []  # (index, order, text to insert)
+
+    def get_loop(n):
         if n < 1 or n > len(loops):
             raise AnchorLost("%s: loop #%d not found (function has %d loops)" % (item.ident, n, len(loops)))
-        lp = loops[n - 1]
+        return loops[n - 1]
+
+    for n, spec in (loops_spec or {}).items():
+        lp = get_loop(n)
         ann = spec["text"].rstrip()
         if lp["kind"] == "for" and spec.get("iter"):
-            # for PAT in EXPR {  ->  for PAT in iter: EXPR invariant.. {
             hdr = s.m[lp["kw_end"]:lp["open"]]
             im = re.search(r"\bin\b", hdr)
             if not im:
                 raise AnchorLost("%s: malformed for loop" % item.ident)
             pos = lp["kw_end"] + im.end()
-            edits.append((pos, " " + spec["iter"] + ":", 0))
-        edits.append((lp["open"], "\n" + ann + "\n", 0))
+            edits.append((pos, 0, " " + spec["iter"] + ":"))
+        edits.append((lp["open"], 0, "\n" + ann + "\n"))
         cl = count_clauses(ann)
         for k in cl:
             item.clauses[k] += cl[k]
-    edits.sort()
+        if spec.get("carries"):
+            item.carrying += count_clauses(ann.split("//@aux")[0])["invariant"]
+    for key, txt in places.items():
+        item.scaffold += txt.count("assert")
+        if key == "fnstart":
+            edits.append((body_open + 1, 1, "\n" + txt + "\n"))
+        elif key == "fnend":
+            edits.append((tail_expr_start(s, body_open, body_close), 0, txt + "\n"))
+        else:
+            kind, n = key
+            lp = get_loop(n)
+            if kind == "loopbody":
+                edits.append((lp["open"] + 1, 1, "\n" + txt + "\n"))
+            else:
+                edits.append((tail_expr_start(s, lp["open"], lp["close"]), 0, txt + "\n"))
+    edits.sort(key=lambda e: (e[0], e[1]))
     out = []
     last = body_open
-    for pos, txt, _ in edits:
+    for pos, _, txt in edits:
         out.append(s.text[last:pos])
         out.append(txt)
         last = pos
@@ -411,7 +461,7 @@ def render_fn(s, loc, contract, opts, item, indent=""):
         body = "{ unimplemented!() }"
         pre = "#[verifier::external_body]\n"
     else:
-        body = splice_loops(s, loc["body_open"], loc["body_close"], opts.get("loops"), item)
+        body = splice_loops(s, loc["body_open"], loc["body_close"], opts.get("loops"), item, opts.get("places"))
         body = apply_replacements(body, opts.get("repls", []), item)
         body = apply_befores(body, opts.get("befores", []), item)
         pre = ""
@@ -665,6 +715,7 @@ class Gen:
         repls = []
         sigsub = []
         befores = []
+        places = {}
         anchor = None
         cur = contract
         n = len(lines)
@@ -692,7 +743,7 @@ class Gen:
                 if d == "loop":
                     pos, kv = parse_kv(toks[1:])
                     nloop = int(pos[0])
-                    loops[nloop] = {"text": "", "iter": kv.get("iter"), "_buf": []}
+                    loops[nloop] = {"text": "", "iter": kv.get("iter"), "_buf": [], "carries": "carries" in pos[1:]}
                     cur = loops[nloop]["_buf"]
                     i += 1
                     continue
@@ -705,6 +756,23 @@ class Gen:
                     befores.append((anchor, "\n".join(new)))
                     new = []
                     mode = None
+                    i += 1
+                    continue
+                if d == "aux":
+                    # following clauses of the current loop block are auxiliary (not property-carrying)
+                    cur.append("//@aux")
+                    i += 1
+                    continue
+                if d in ("fnstart", "fnend"):
+                    places[d] = []
+                    cur = places[d]
+                    i += 1
+                    continue
+                if d in ("loopbody", "loopend"):
+                    nloop = int(toks[1])
+                    key = (d, nloop)
+                    places[key] = []
+                    cur = places[key]
                     i += 1
                     continue
                 if d == "replace":
@@ -729,7 +797,8 @@ class Gen:
             i += 1
         for k in loops:
             loops[k]["text"] = "\n".join(loops[k].pop("_buf"))
-        return "\n".join(contract), {"loops": loops, "repls": repls, "sigsub": sigsub, "befores": befores}, i, term
+        return "\n".join(contract), {"loops": loops, "repls": repls, "sigsub": sigsub, "befores": befores,
+                                    "places": {k: "\n".join(v) for k, v in places.items()}}, i, term
 
     def vac(self, contract, ident=None):
         if not self.vacuity or (self.vacuity is not True and (self.unit + "/" + ident) not in self.vacuity):
